@@ -167,8 +167,28 @@ var c04Sources = []string{
 	"Patient.nap().name.count()", "%pat.name.given.first()", "Patient.contained.id", "Patient.identifier.where(system.exists()).value", "'x'.matches('^x$')", "5.toQuantity()", "Patient.name.given.first().toChars()", "1 / 0", "Patient.nosuchfield",
 	// inexact quotients before and after a division whose operands have more than 16 fraction digits
 	"1.0 / 3", "2 / 3", "1.00000000000000000001 / 3", "0.1234567890123456789012345 / 7.0", "(1.0 / 3) + (2 / 3)",
+	// large collections (an implementation that splits the work must still report the first failing item's error)
+	"%big.where($this > 150).count()", "%big.where($this + 1 > 0)", "%bigmixed.where($this + 1 > 0).count()", "%bigmixed.select($this + 1).count()", "%bigmixed.exists($this.length() > 3)", "%bigmixed.all($this.toString().length() < 9)",
+	"%big.select($this * 2).where($this mod 3 = 0).count()", "%big.distinct().count()", "%big.exists($this = 299)",
+	// function arguments that are not constants (one compiled call, other argument values per evaluation)
+	"5.convertsToQuantity(%unit1)", "5.toQuantity(%unit1).toString()", "'abc'.substring(%fint)", "'a,b'.replace(',', %fstr)", "'abc'.indexOf(%fstr)", "%multi.skip(%fint).count()", "%multi.take(%fpos)", "'abc'.startsWith(%fstr)", "2.power(%fint)", "10.log(%fpos)", "1.5.round(%fpos)",
 	// elements that carry no precision: conversion must not write into the shared message
 	"%fdtnp.toString()", "%fdnp.toString()", "%ftnp.toString()", "%fdtnp = %fdtnp", "Patient.birthDate.toString()", "Patient.deceased.toString()", "Patient.meta.lastUpdated.toString()",
+}
+
+// c04BigVars: collections of 300 items; in %bigmixed item 140 and item 260 fail `$this + 1` with different errors.
+func c04BigVars() []fhirpath.EvaluateOption {
+	big := make(system.Collection, 300)
+	mixed := make(system.Collection, 300)
+	for i := range big {
+		big[i] = system.Integer(i)
+		mixed[i] = system.Integer(i)
+	}
+	mixed[140] = system.Boolean(true)
+	mixed[260] = system.String("text")
+	mixed[261] = system.Collection(nil)
+	mixed = append(mixed[:261], mixed[262:]...)
+	return []fhirpath.EvaluateOption{evalopts.EnvVariable("big", big), evalopts.EnvVariable("bigmixed", mixed), evalopts.EnvVariable("unit1", system.String("mg"))}
 }
 
 type c04Obs struct {
@@ -199,6 +219,7 @@ func runC04(env *core.Env) {
 	}
 	stdEnv := gen.StdEnv() // shared environment objects
 	eo := append(gen.EnvOpts(stdEnv), evalopts.OverrideTime(c04Fixed))
+	eo = append(eo, c04BigVars()...)
 	co := []fhirpath.CompileOption{compopts.WithExperimentalFuncs(), compopts.AddFunction("nap", nap)}
 	digest0 := tableDigest()
 	env.Cover("table-digest")
@@ -247,7 +268,7 @@ func runC04(env *core.Env) {
 		}()
 		c, err := ex.Evaluate([]fhir.Resource{r}, eo...)
 		if err != nil {
-			return "ERR"
+			return "ERR:" + err.Error() // which error is reported is part of the result
 		}
 		var sb strings.Builder
 		for _, it := range fx.RenderAll(c) {
@@ -350,7 +371,7 @@ func runC04(env *core.Env) {
 			for a := range exprs {
 				ra := (a + rep) % len(resources)
 				fresh := proto.Clone(pristine[ra]).(fhir.Resource)
-				feo := append(gen.EnvOpts(gen.StdEnv()), evalopts.OverrideTime(c04Fixed))
+				feo := append(append(gen.EnvOpts(gen.StdEnv()), evalopts.OverrideTime(c04Fixed)), c04BigVars()...)
 				outs := make([]string, g)
 				var wg sync.WaitGroup
 				start := make(chan struct{})
@@ -699,7 +720,7 @@ func c04TZ(env *core.Env, resources []fhir.Resource) {
 				"@"+day+"T23:40:00"+off+" = '"+day+"T23:40:00"+off+"'.toDateTime()", "@"+day+"T00:10:00"+off+" - 1 month", "@"+day+"T10"+off+" <= @"+day+"T10:00"+off)
 		}
 	}
-	eo := append(gen.EnvOpts(gen.StdEnv()), evalopts.OverrideTime(c04Fixed))
+	eo := append(append(gen.EnvOpts(gen.StdEnv()), evalopts.OverrideTime(c04Fixed)), c04BigVars()...)
 	co := []fhirpath.CompileOption{compopts.WithExperimentalFuncs(), compopts.AddFunction("nap", func(in system.Collection) (system.Collection, error) { return in, nil })}
 	for _, p := range progs {
 		for j, r := range resources {
